@@ -249,6 +249,23 @@ def run_property(pid, units, validate_ops, selftests, bounds, assumptions, uncov
                 st[name] = 'MUTANT NOT DETECTED'
                 rep.inconclusive.append('%s: the seeded MIR mutation was not detected: the encoding lost the code' % name)
     rep.selftest = st
+    # rely/guarantee bookkeeping: every contract used as a summary must be discharged by a unit of this run whose
+    # function under test is that operation (structural obligation, all queries unsat)
+    proved, used = set(), {}
+    for name, r in results.items():
+        qs = r.get('queries', [])
+        has_struct = any(q['name'].startswith('result == canonical') for q in qs)
+        if r.get('status') == 'pass' and has_struct and all(q['result'] == q.get('expect', 'unsat') for q in qs):
+            proved.add(r.get('method'))
+        for callee, n in (r.get('summaries_used') or {}).items():
+            if not (callee == r.get('method') and r.get('inductive')):
+                used.setdefault(callee, []).append(name)
+    alias = {'mk_const': 'mk_const'}
+    missing = sorted(c for c in used if c not in proved)
+    rep.extra['contracts'] = {'used_as_summaries': {c: len(v) for c, v in used.items()}, 'discharged_by_units_of_this_run': sorted(x for x in proved if x),
+                              'used_without_discharge': missing}
+    for c in missing:
+        rep.inconclusive.append('contract of BDDEnv::%s is used as a summary (by %s) but no unit of this run discharges it' % (c, used[c][0]))
     rep.absorb(results)
     for name, r in sorted(results.items()):
         if r.get('cex'):
